@@ -103,6 +103,10 @@ func TestC05Supply(t *testing.T) {
 			b := bg.Block
 			if _, err := sim.E.Propose(b, r, r); err != nil {
 				if strings.Contains(err.Error(), "supplementarysanity") {
+					if !sanityAboutC05(err.Error()) {
+						rec.Discard("sanity-checker-other-invariant:" + sanityClass(err.Error()))
+						return
+					}
 					fail("sanity-checker-disagrees", "height %d: the in-tree sanity checker failed while the block was being proposed: %v", b.Height, err)
 				}
 				rec.Discard("proposal-failed:" + firstWords(err.Error(), 12))
@@ -111,6 +115,10 @@ func TestC05Supply(t *testing.T) {
 			out := sim.E.Execute(r, b, chain.PathProcess, nil)
 			if out.Err != nil || !out.Accepted {
 				if out.Err != nil && strings.Contains(out.Err.Error(), "supplementarysanity") {
+					if !sanityAboutC05(out.Err.Error()) {
+						rec.Discard("sanity-checker-other-invariant:" + sanityClass(out.Err.Error()))
+						return
+					}
 					fail("sanity-checker-disagrees", "height %d: the in-tree sanity checker failed: %v", b.Height, out.Err)
 				}
 				rec.Discard("block-failed:" + firstWords(fmt.Sprint(out.Err), 8))
@@ -181,4 +189,41 @@ func tail(s []string, n int) []string {
 		return s[len(s)-n:]
 	}
 	return s
+}
+
+// The in-tree supplementary sanity checker is a second opinion on what C05 states (balances add up to the total supply,
+// share totals equal the delegations). It also enforces invariants C05 does not state - e.g. "no allowance exceeds the
+// total supply", which the Allow handler ensures when the allowance is set but which a later Burn legitimately breaks
+// (observed on the unchanged tree at VERIF_SEED=2). Only failures about C05's own clauses are violations; any other
+// failure ends the case (the checker aborts the block) and is counted by class.
+func sanityAboutC05(msg string) bool {
+	for _, m := range []string{
+		"add up", "don't match account's total", "but non-zero active escrow balance", "but non-zero debonding escrow balance",
+		"balance is invalid", "total supply is invalid", "common pool is invalid", "last block fees is invalid",
+		"specified for a nonexisting account", "burn address has non-zero balance",
+	} {
+		if strings.Contains(msg, m) {
+			return true
+		}
+	}
+	return false
+}
+
+func sanityClass(msg string) string {
+	if i := strings.Index(msg, "check failed"); i >= 0 {
+		msg = msg[i:]
+	}
+	// drop addresses and numbers: keep the wording
+	f := strings.Fields(msg)
+	var out []string
+	for _, w := range f {
+		if strings.HasPrefix(w, "oasis1") || strings.ContainsAny(w, "0123456789") {
+			continue
+		}
+		out = append(out, w)
+	}
+	if len(out) > 14 {
+		out = out[:14]
+	}
+	return strings.Join(out, " ")
 }
